@@ -100,7 +100,11 @@ def gen(rng, n_cases, classes=("rnc", "constr")):
         n_survive = None if k == 0 else (n + int(rng.randint(1, 4)) if k == 1 else int(rng.randint(1, n + 1)))
         # history of the operator object before the recorded call: none / used on a population of another
         # problem (other constraint layout, other size) / used on the same population with a smaller quota
-        warm = ["none", "none", "other-problem", "same-pop"][rng.randint(4)]
+        warm = ["none", "none", "other-problem", "same-pop", "rival-metric"][rng.randint(5)]
+        # documented keyword of pymoo's Survival.do: positions instead of the sub-population
+        ret_idx = bool(rng.randint(6) == 0)
+        # individuals carrying a feasibility tolerance (pymoo's AdaptiveEpsilonConstraintHandling sets one)
+        cv_eps = float(rng.choice([0.05, 0.5, 1.0])) if rng.randint(6) == 0 else 0.0
         inf_F = False
         if cls == "rnc" and rng.randint(15) == 0 and n >= 3:
             # +inf objective values (penalised / failed evaluations): dominance and ranks are still well defined.
@@ -108,7 +112,7 @@ def gen(rng, n_cases, classes=("rnc", "constr")):
             # rank / feasibility oracles only and are not sent to the Lean model.
             F = np.where(rng.random_sample(F.shape) < 0.2, np.inf, F)
             inf_F = True
-        yield {"cls": cls, "metric": metric, "n_survive": n_survive, "F": F, "G": G, "H": H, "warm": warm, "inf_F": inf_F,
+        yield {"cls": cls, "metric": metric, "n_survive": n_survive, "F": F, "G": G, "H": H, "warm": warm, "inf_F": inf_F, "ret_idx": ret_idx, "cv_eps": cv_eps,
                "seed": int(rng.randint(2**31 - 1))}
 
 
@@ -169,11 +173,17 @@ class Oracles:
 def run(case, replay=None):
     import pymoo.core.survival as pcs
     from pymoode.survival.rank_and_crowding import rnc
-    rec = Record(NAME, dict({k: case[k] for k in ("cls", "metric", "n_survive", "seed")}, warm=case.get("warm", "none"), inf_F=bool(case.get("inf_F"))),
+    rec = Record(NAME, dict({k: case[k] for k in ("cls", "metric", "n_survive", "seed")}, warm=case.get("warm", "none"), inf_F=bool(case.get("inf_F")), ret_idx=bool(case.get("ret_idx")),
+                            cv_eps=float(case.get("cv_eps") or 0.0)),
                  {k: np.array(case[k], dtype=float) for k in ("F", "G", "H")})
     F, G, H = rec.inp["F"], rec.inp["G"], rec.inp["H"]
     n = len(F)
     prob, pop = make_pop(F, G, H)
+    if case.get("cv_eps"):
+        for ind in pop:
+            ind.config = dict(ind.config)
+            ind.config["cv_eps"] = float(case["cv_eps"])
+        rec.tags.add("cv_eps>0")
     snap = {k: np.array(pop.get(k), copy=True) for k in ("X", "F", "G", "H")}
     rec.inp["CV"] = np.array(pop.get("CV"), dtype=float).reshape(n)
     rec.inp["feas"] = np.array(pop.get("feasible"), dtype=bool).reshape(n)
@@ -195,7 +205,19 @@ def run(case, replay=None):
             if warm != "none":
                 st = np.random.get_state()
                 real = (s.nds, getattr(s, "crowding_func", None))
-                if warm == "other-problem":
+                if warm == "rival-metric":
+                    # another survival object with another crowding metric has just truncated the same candidates
+                    other_metric = METRICS[(METRICS.index(case["metric"]) + 1 + (case["seed"] % 3)) % 5]
+                    if other_metric == "pcd" and F.shape[1] > 2:
+                        other_metric = "cd"
+                    prob2, pop2 = make_pop(F, G, H)
+                    s2 = rnc.RankAndCrowding(crowding_func=other_metric) if case["cls"] == "rnc" \
+                        else rnc.ConstrRankAndCrowding(crowding_func=other_metric)
+                    if case["n_survive"] is None:
+                        s2.do(prob2, pop2)
+                    else:
+                        s2.do(prob2, pop2, n_survive=case["n_survive"])
+                elif warm == "other-problem":
                     r2 = np.random.RandomState(case["seed"] % 9973)
                     n2 = n + 3
                     F2 = r2.random_sample((n2, F.shape[1]))
@@ -217,12 +239,20 @@ def run(case, replay=None):
             pcs.split_by_feasibility = orc.wrap_split(saved[0])
             rnc.split_by_feasibility = orc.wrap_split(saved[1])
             rnc.randomized_argsort = orc.wrap_sort(saved[2])
-            if case["n_survive"] is None:
-                out = s.do(prob, pop)
+            if case.get("ret_idx"):
+                rec.tags.add("return_indices")
+                if case["n_survive"] is None:
+                    out = s.do(prob, pop, return_indices=True)
+                else:
+                    out = s.do(prob, pop, n_survive=case["n_survive"], return_indices=True)
+                rec.out["surv"] = np.array([int(i) for i in out], dtype=int)
             else:
-                out = s.do(prob, pop, n_survive=case["n_survive"])
-            pos = {id(ind): i for i, ind in enumerate(pop)}
-            rec.out["surv"] = np.array([pos.get(id(ind), -1) for ind in out], dtype=int)
+                if case["n_survive"] is None:
+                    out = s.do(prob, pop)
+                else:
+                    out = s.do(prob, pop, n_survive=case["n_survive"])
+                pos = {id(ind): i for i, ind in enumerate(pop)}
+                rec.out["surv"] = np.array([pos.get(id(ind), -1) for ind in out], dtype=int)
             rk = pop.get("rank")
             rec.out["rank"] = np.array([-1 if r is None else int(r) for r in rk], dtype=int)
         except Exception as e:
@@ -408,7 +438,7 @@ def oracle_C16(rec):
     bad = []
     # same call on RankAndCrowding with the same seed
     ref = run({"cls": "rnc", "metric": rec.cfg["metric"], "n_survive": rec.cfg["n_survive"], "F": F, "G": G, "H": H,
-               "seed": rec.cfg["seed"]})
+               "seed": rec.cfg["seed"], "cv_eps": rec.cfg.get("cv_eps", 0.0)})
     rs = [int(i) for i in ref.out.get("surv", [])]
     if not rec.cfg["constr"]:
         if s != rs:
